@@ -23,6 +23,7 @@ theorem, footprint_in_bounds of the iovec walks, the bit⇔item part of table_in
 import Wz.Proofs.C15_PollLoop
 import Wz.Proofs.C15_Table
 import Wz.Proofs.C15_Fs2W
+import Wz.Proofs.C15_All
 
 namespace Wz.C15
 open Wz.Model Wz.Model.Wasi Wz.Model.DescTable Wz.Gen.Wasi
@@ -344,7 +345,7 @@ theorem modelled2_enumerated (fn : String) (hfn : fn ∈ modelled2) : ∃ f : Fn
 
 theorem call_by_name (fixed fixedRecv : Bool) (h : Host) (fds : Fds) (m : Mem) (f : Fn2) (a : List Nat) :
     call fixed fixedRecv h fds m f.name a = call2e fixedRecv h fds m f a := by
-  have h1 : call1 fixed h fds m f.name a = none := by cases f <;> simp [call1, Fn2.name]
+  have h1 : call1 fixed h fds m f.name a = none := by cases f <;> simp [call1, Fn2.name, Fn1.all, Fn1.name]
   unfold call
   rw [h1, call2_by_name]
 
@@ -448,5 +449,120 @@ example : (call true true { preEntries := [1, 5, 4], dirEntries := [1] } dirFds 
     = some [(Err.errno 0, [Wr.region 8192 76, Wr.bytes 16384 [76, 0, 0, 0]])] := by decide
 example : ((pathOpen dirFds zeroPage 3 2048 0 0 16384).map (fun r => (r.err, r.writes))) =
     [(Err.errno 28, [])] := by decide   -- path_len = 0: EINVAL
+
+/-! ## all 46 functions: one theorem per statement, quantified over the function name in `modelled`
+
+`modelled = modelled1 ++ modelled2`; the first batch has one alternative per call.  Proved for all 46: no host panic
+(repaired poll_oneoff; `HostArgsOk`: the sizes of the host's argument and environment lists fit 32 bits), failed
+call keeps the table, allocation bounded (all but fd_renumber = F16, `renumber_alloc_witness`).  The two statements
+about WHERE a call writes are proved for the 24 functions of the second batch only (above); for the first batch they
+are checked on the real code by the harness (exact byte diff against the model; designated regions). -/
+
+theorem call1_by_name (fixed : Bool) (h : Host) (fds : Fds) (m : Mem) (f : Fn1) (a : List Nat) :
+    call1 fixed h fds m f.name a = call1e fixed h fds m f a := by
+  cases f <;> simp [call1, Fn1.all, Fn1.name]
+
+theorem call2_of_fn1 (fixedRecv : Bool) (h : Host) (fds : Fds) (m : Mem) (f : Fn1) (a : List Nat) :
+    call2 fixedRecv h fds m f.name a = none := by
+  cases f <;> simp [call2, Fn2.all, Fn2.name, Fn1.name]
+
+theorem modelled1_enumerated (fn : String) (hfn : fn ∈ modelled1) : ∃ f : Fn1, f.name = fn := by
+  unfold modelled1 at hfn
+  obtain ⟨f, _, hf⟩ := List.mem_map.1 hfn
+  exact ⟨f, hf⟩
+
+theorem call_fn1 (fixed fixedRecv : Bool) (h : Host) (fds : Fds) (m : Mem) (f : Fn1) (a : List Nat) (rs : List Res)
+    (hc : call fixed fixedRecv h fds m f.name a = some rs) : ∃ r, call1e fixed h fds m f a = some r ∧ rs = [r] := by
+  unfold call at hc
+  rw [call1_by_name] at hc
+  split at hc
+  · rename_i r hr
+    exact ⟨r, hr, by simpa using hc.symm⟩
+  · rw [call2_of_fn1] at hc
+    cases hc
+
+/-- no host panic, first batch (repaired poll_oneoff) -/
+theorem call1e_no_host_panic (h : Host) (ha : HostArgsOk h) (fds : Fds) (m : Mem) (f : Fn1) (a : List Nat) (r : Res)
+    (hc : call1e true h fds m f a = some r) : r.err ≠ Err.panic := by
+  cases f
+  case poll_oneoff => fs1_case hc (poll_no_host_index_oob _ _ _ _ _ _)
+  case fd_read => fs1_case hc (fdRead_ne_panic _ _ _ _ _ _ _)
+  case fd_pread => fs1_case hc (fdPread_ne_panic _ _ _ _ _ _)
+  case fd_write => fs1_case hc (fdWrite_ne_panic _ _ _ _ _ _)
+  case fd_pwrite => fs1_case hc (fdPwrite_ne_panic _ _ _ _ _ _)
+  case args_get => fs1_case hc (writeOffsetsAndValues_ne_panic _ _ _ _ ha.1 ha.2.1)
+  case environ_get => fs1_case hc (writeOffsetsAndValues_ne_panic _ _ _ _ ha.2.2.1 ha.2.2.2)
+  case args_sizes_get => fs1_case hc (write2xU32_ne_panic _ _ _ _ _)
+  case environ_sizes_get => fs1_case hc (write2xU32_ne_panic _ _ _ _ _)
+  case clock_res_get => fs1_case hc (clockResGet_ne_panic _ _ _ _)
+  case clock_time_get => fs1_case hc (clockTimeGet_ne_panic _ _ _ _)
+  case random_get => fs1_case hc (randomGet_ne_panic _ _ _)
+  case fd_prestat_get => fs1_case hc (fdPrestatGet_ne_panic _ _ _ _ _)
+  case fd_prestat_dir_name => fs1_case hc (prestatDirName_no_host_index_oob _ _ _ _ _ _)
+  case fd_renumber => fs1_case hc (renumber_ne_panic _ _ _ _)
+  case fd_close => fs1_case hc (fdClose_ne_panic _ _)
+  case fd_fdstat_get => fs1_case hc (statLike_ne_panic _ _ _ _ _)
+  case fd_filestat_get => fs1_case hc (statLike_ne_panic _ _ _ _ _)
+  case fd_seek => fs1_case hc (seekLike_ne_panic _ _ _)
+  case fd_tell => fs1_case hc (seekLike_ne_panic _ _ _)
+  case proc_exit => fs1_case hc (by simp)
+  case sched_yield => fs1_case hc (by simp)
+
+/-- **no_host_index_oob, all 46 functions**: whatever the arguments, the memory image and the descriptor table, no
+alternative of any call is a Go runtime error in the host (repaired poll_oneoff, either variant of sock_recv). -/
+theorem all_no_host_panic (fixedRecv : Bool) (h : Host) (hh : HostNamesOk h) (ha : HostArgsOk h) (fds : Fds) (m : Mem)
+    (hb : Bytes m) (hs : m.size < 9223372036854775808) (fn : String) (hfn : fn ∈ modelled) (a : List Nat)
+    (rs : List Res) (hc : call true fixedRecv h fds m fn a = some rs) : ∀ r ∈ rs, r.err ≠ Err.panic := by
+  unfold modelled at hfn
+  rcases List.mem_append.1 hfn with h1 | h2
+  · obtain ⟨f, rfl⟩ := modelled1_enumerated fn h1
+    obtain ⟨r, hr, rfl⟩ := call_fn1 true fixedRecv h fds m f a rs hc
+    intro r' hr'
+    simp only [List.mem_cons, List.not_mem_nil, or_false] at hr'
+    subst hr'
+    exact call1e_no_host_panic h ha fds m f a _ hr
+  · exact wasi_no_host_panic true fixedRecv h hh fds m hb hs fn h2 a rs hc
+
+/-- **descriptor table, all 46 functions**: an alternative that does not answer errno 0 leaves the descriptor table
+as it was (no exception; proc_exit, which closes everything, answers `exit`, and its model leaves the table to the
+engine). -/
+theorem all_failed_call_keeps_table (fixed fixedRecv : Bool) (h : Host) (hh : HostNamesOk h) (fds : Fds) (m : Mem)
+    (hb : Bytes m) (hs : m.size < 9223372036854775808) (fn : String) (hfn : fn ∈ modelled) (a : List Nat)
+    (rs : List Res) (hc : call fixed fixedRecv h fds m fn a = some rs) :
+    ∀ r ∈ rs, r.err ≠ Err.errno 0 → r.fds = none := by
+  unfold modelled at hfn
+  rcases List.mem_append.1 hfn with h1 | h2
+  · obtain ⟨f, rfl⟩ := modelled1_enumerated fn h1
+    obtain ⟨r, hr, rfl⟩ := call_fn1 fixed fixedRecv h fds m f a rs hc
+    intro r' hr'
+    simp only [List.mem_cons, List.not_mem_nil, or_false] at hr'
+    subst hr'
+    exact call1e_table fixed h fds m f a _ hr
+  · exact wasi_failed_call_keeps_table fixed fixedRecv h hh fds m hb hs fn h2 a rs hc
+
+/-- **host allocation, 45 functions**: the allocation the model predicts is at most 512 bytes — a constant, a
+fortiori linear in the guest memory size.  fd_renumber is the exception (F16, `renumber_alloc_witness`). -/
+theorem all_alloc_bounded (fixed fixedRecv : Bool) (h : Host) (hh : HostNamesOk h) (fds : Fds) (m : Mem)
+    (hb : Bytes m) (hs : m.size < 9223372036854775808) (fn : String) (hfn : fn ∈ modelled) (hne : fn ≠ "fd_renumber")
+    (a : List Nat) (rs : List Res) (hc : call fixed fixedRecv h fds m fn a = some rs) :
+    ∀ r ∈ rs, r.alloc ≤ 512 + 0 * m.size := by
+  unfold modelled at hfn
+  rcases List.mem_append.1 hfn with h1 | h2
+  · obtain ⟨f, rfl⟩ := modelled1_enumerated fn h1
+    obtain ⟨r, hr, rfl⟩ := call_fn1 fixed fixedRecv h fds m f a rs hc
+    intro r' hr'
+    simp only [List.mem_cons, List.not_mem_nil, or_false] at hr'
+    subst hr'
+    have hf : f ≠ Fn1.fd_renumber := by
+      intro hf
+      subst hf
+      exact hne rfl
+    rw [call1e_alloc fixed h fds m f hf a _ hr]
+    omega
+  · exact wasi_alloc_bounded fixed fixedRecv h hh fds m hb hs fn h2 a rs hc
+
+example : modelled.length = 46 ∧ modelled.Nodup := by decide
+example : HostArgsOk { args := [[112, 114, 111, 103], [45, 120]], env := [[65, 61, 98]] } := by
+  unfold HostArgsOk nulSize; decide
 
 end Wz.C15
